@@ -48,4 +48,224 @@ structure UnusedZero [Zero α] [One α] {d r : Nat} (h : r + 2 < d) (P : Mat α 
   colLast : ∀ i : Fin d, 2 ≤ i.val → i.val < d - r → P i ⟨(r + 2) - 1, by omega⟩ = 0
   flag : P ⟨d - 1, by omega⟩ ⟨(r + 2) - 2, by omega⟩ = 0 ∨ P ⟨d - 1, by omega⟩ ⟨(r + 2) - 2, by omega⟩ = 1
 
+open Matrix
+
+theorem flag_roundtrip [Zero α] [One α] [BEq α] [LawfulBEq α] (x : α) (hx : x = 0 ∨ x = 1) :
+    (if (!(x == 0)) = true then (1 : α) else 0) = x := by
+  rcases hx with rfl | rfl
+  · simp
+  · by_cases h : (1 : α) = 0
+    · simp [h]
+    · simp [h]
+
+theorem Mat.congr_idx {m n : Nat} (P : Mat α m n) {a a' : Fin m} {b b' : Fin n}
+    (ha : a.val = a'.val) (hb : b.val = b'.val) : P a b = P a' b' := by
+  rw [Fin.ext ha, Fin.ext hb]
+
+theorem fdPack_fdUnpack [Zero α] [One α] [BEq α] [LawfulBEq α]
+    {d r : Nat} (h : r + 2 < d) (P : Mat α d (r + 2)) (hP : UnusedZero h P) :
+    fdPack (fdUnpack h P) = P := by
+  funext i j
+  obtain ⟨h1, h2, h3⟩ := hP
+  obtain ⟨iv, hi⟩ := i
+  obtain ⟨jv, hj⟩ := j
+  simp only [fdUnpack, fdPack]
+  rcases (show jv < r ∨ jv = r + 2 - 2 ∨ jv = r + 2 - 1 by omega) with hj1 | hj2 | hj2
+  · rw [if_neg (by omega), dif_neg (by omega), if_neg (by omega), if_neg (by omega),
+      dif_neg (by omega), dif_pos hj1]
+  · have hjE : (⟨jv, hj⟩ : Fin (r + 2)) = ⟨r + 2 - 2, by omega⟩ := Fin.ext hj2
+    by_cases hi1 : iv = d - 1
+    · rw [if_pos ⟨hi1, hj2⟩]
+      have hiE : (⟨iv, hi⟩ : Fin d) = ⟨d - 1, by omega⟩ := Fin.ext hi1
+      rw [hjE, hiE]
+      exact flag_roundtrip _ h3
+    · rw [if_neg (by omega), dif_neg (by omega), if_neg (by omega), if_neg (by omega)]
+      by_cases hi2 : iv < r
+      · rw [dif_pos ⟨hi2, hj2⟩]; exact P.congr_idx rfl hj2.symm
+      · rw [dif_neg (by omega), dif_neg (by omega), hjE]
+        exact (h1 ⟨iv, hi⟩ (by simp only []; omega) (by simp only []; omega)).symm
+  · have hjE : (⟨jv, hj⟩ : Fin (r + 2)) = ⟨r + 2 - 1, by omega⟩ := Fin.ext hj2
+    rw [if_neg (by omega)]
+    by_cases hi1 : d - r ≤ iv
+    · rw [dif_pos ⟨hi1, hj2⟩]
+      exact P.congr_idx (by simp only []; omega) hj2.symm
+    · rw [dif_neg (by omega)]
+      by_cases hi2 : iv = 1
+      · rw [if_pos ⟨hi2, hj2⟩]; exact P.congr_idx hi2.symm hj2.symm
+      · rw [if_neg (by omega)]
+        by_cases hi3 : iv = 0
+        · rw [if_pos ⟨hi3, hj2⟩]; exact P.congr_idx hi3.symm hj2.symm
+        · rw [if_neg (by omega), dif_neg (by omega), dif_neg (by omega), hjE]
+          exact (h2 ⟨iv, hi⟩ (by simp only []; omega) (by simp only []; omega)).symm
+
+theorem sumFin_eq [AddCommMonoid α] (n : Nat) (f : Fin n → α) : sumFin n f = ∑ i, f i := by
+  rw [Fin.sum_univ_def]; rfl
+
+/-- a model matrix read as a Mathlib matrix (definitionally the same function) -/
+abbrev toM {m n : Nat} (A : Mat α m n) : Matrix (Fin m) (Fin n) α := A
+
+theorem applyDense_eq [CommRing α] {d n : Nat} (P : Mat α d d) (G : Mat α d n) :
+    toM (applyDense P G) = (toM G)ᵀ * toM P := by
+  funext t b
+  simp [applyDense, sumFin_eq, Matrix.mul_apply]
+
+theorem denote_eq [CommRing α] {d r : Nat} (V : Mat α d r) (e : Vec α r) (c : α) :
+    toM (denote V e c) = c • (1 - toM V * (toM V)ᵀ) + toM V * Matrix.diagonal e * (toM V)ᵀ := by
+  funext i b
+  simp [denote, sumFin_eq, Matrix.mul_apply, Matrix.one_apply, Matrix.diagonal_apply]
+
+theorem applyPacked_new_eq [CommRing α] {d r n : Nat} (V : Mat α d r) (e : Vec α r) (c : α)
+    (G : Mat α d n) :
+    toM (applyPacked V e c false G) =
+      c • ((toM G)ᵀ - (toM G)ᵀ * toM V * (toM V)ᵀ) + (toM G)ᵀ * toM V * Matrix.diagonal e * (toM V)ᵀ := by
+  funext t b
+  simp [applyPacked, sumFin_eq, Matrix.mul_apply, Matrix.diagonal_apply]
+
+theorem applyPacked_skip [Add α] [Sub α] [Mul α] [Zero α] {d r n : Nat} (V : Mat α d r) (e : Vec α r) (c : α)
+    (G : Mat α d n) : applyPacked V e c true G = G.transpose := by
+  funext t b; simp [applyPacked, Mat.transpose]
+
+theorem applyPacked_eq_applyDense [CommRing α] {d r n : Nat} (V : Mat α d r) (e : Vec α r) (c : α)
+    (G : Mat α d n) : applyPacked V e c false G = applyDense (denote V e c) G := by
+  have h1 := applyPacked_new_eq V e c G
+  have h2 := applyDense_eq (denote V e c) G
+  rw [denote_eq] at h2
+  show toM (applyPacked V e c false G) = toM (applyDense (denote V e c) G)
+  rw [h1, h2]
+  simp only [Matrix.mul_add, Matrix.mul_smul, Matrix.mul_sub, Matrix.mul_one, Matrix.mul_assoc]
+
+
+
+theorem view_unview [Zero α] (n d : Nat) (M : Mat α n d) : view n d (unview n d M) = M := by
+  funext i j
+  have hd : 0 < d := Nat.lt_of_le_of_lt (Nat.zero_le _) j.isLt
+  have hlt : i.val * d + j.val < n * d :=
+    Nat.lt_of_lt_of_le (Nat.add_lt_add_left j.isLt _)
+      (by rw [← Nat.succ_mul]; exact Nat.mul_le_mul_right d i.isLt)
+  simp only [view, unview]
+  rw [dif_pos hlt]
+  apply Mat.congr_idx
+  · simp only []
+    rw [Nat.add_comm, Nat.add_mul_div_right _ _ hd, Nat.div_eq_of_lt j.isLt, Nat.zero_add]
+  · simp only []
+    rw [Nat.add_comm, Nat.add_mul_mod_self_right, Nat.mod_eq_of_lt j.isLt]
+
+theorem stepPacked_eq_stepDenoted [CommRing α] [BEq α] :
+    (stepPacked : AxisOp α → (d n : Nat) → Mat α d n → Mat α n d) = stepDenoted := by
+  funext op d n G
+  cases op with
+  | roll => rfl
+  | dense P => rfl
+  | packed r P =>
+    simp only [stepPacked, stepDenoted]
+    split
+    · rename_i h
+      simp only [applyPackedP]
+      cases hz : (lowRankUnpack h (ofIdx d (r + 2) P)).hasZeros
+      · simp [applyPacked_eq_applyDense]
+      · simp [applyPacked_skip]
+    · rfl
+
+theorem preconditionBlock_eq_denoted [CommRing α] [BEq α] (ops : List (AxisOp α)) (shape : List Nat)
+    (t : Nat → α) : preconditionBlock ops shape t = preconditionBlockDenoted ops shape t := by
+  unfold preconditionBlock preconditionBlockDenoted
+  rw [stepPacked_eq_stepDenoted]
+
+/-- matrix gradient `G : m × n`, packed preconditioner on axis 0 -/
+theorem block_matrix_axis0 [CommRing α] [BEq α] {m n r : Nat} (h : r + 2 < m) (P : Nat → Nat → α)
+    (G : Mat α m n) :
+    preconditionBlock [.packed r P, .roll] [m, n] (unview m n G) =
+      unview m n (if (lowRankUnpack h (ofIdx m (r + 2) P)).hasZeros then G
+        else ((toM (denoteP h (ofIdx m (r + 2) P)))ᵀ * toM G)) := by
+  rw [preconditionBlock_eq_denoted]
+  simp only [preconditionBlockDenoted, blockLoop, size, List.cons_append, List.nil_append,
+    Mat.force_eq, view_unview, stepDenoted, dif_pos h]
+  refine congrArg (unview m n) ?_
+  by_cases hz : (lowRankUnpack h (ofIdx m (r + 2) P)).hasZeros = true
+  · simp only [hz]; rfl
+  · simp only [hz]
+    show (toM (applyDense _ G))ᵀ = _
+    rw [applyDense_eq]
+    simp [denoteP, Matrix.transpose_mul]
+
+/-- matrix gradient `G : m × n`, packed preconditioner on axis 1 -/
+theorem block_matrix_axis1 [CommRing α] [BEq α] {m n r : Nat} (h : r + 2 < n) (P : Nat → Nat → α)
+    (G : Mat α m n) :
+    preconditionBlock [.roll, .packed r P] [m, n] (unview m n G) =
+      unview m n (if (lowRankUnpack h (ofIdx n (r + 2) P)).hasZeros then G
+        else (toM G * toM (denoteP h (ofIdx n (r + 2) P)))) := by
+  rw [preconditionBlock_eq_denoted]
+  simp only [preconditionBlockDenoted, blockLoop, size, List.cons_append, List.nil_append,
+    Mat.force_eq, view_unview, stepDenoted, dif_pos h]
+  refine congrArg (unview m n) ?_
+  by_cases hz : (lowRankUnpack h (ofIdx n (r + 2) P)).hasZeros = true
+  · simp only [hz]; rfl
+  · simp only [hz]
+    show toM (applyDense _ G.transpose) = _
+    rw [applyDense_eq]
+    rfl
+
+
+/-- split a sum over `Fin d` at `r ≤ d` -/
+theorem sum_split [AddCommMonoid α] {d r : Nat} (hr : r ≤ d) (G : Fin d → α) :
+    ∑ i, G i = (∑ q : Fin r, G (Fin.castLE hr q))
+      + ∑ i : Fin (d - r), G ⟨r + i.val, by have := i.isLt; omega⟩ := by
+  have hd : r + (d - r) = d := by omega
+  rw [← Equiv.sum_comp (finCongr hd) G, Fin.sum_univ_add]
+  rfl
+
+theorem sum_castLE [AddCommMonoid α] {d r : Nat} (hr : r ≤ d) (F : Fin d → α) :
+    ∑ q : Fin r, F (Fin.castLE hr q) = ∑ i, if i.val < r then F i else 0 := by
+  rw [sum_split hr (fun i => if i.val < r then F i else 0)]
+  have h2 : ∑ i : Fin (d - r), (if (⟨r + i.val, by have := i.isLt; omega⟩ : Fin d).val < r
+      then F ⟨r + i.val, by have := i.isLt; omega⟩ else 0) = 0 := by
+    apply Finset.sum_eq_zero
+    intro i _
+    rw [if_neg (by simp only []; omega)]
+  rw [h2, add_zero]
+  apply Finset.sum_congr rfl
+  intro q _
+  rw [if_pos (by simp)]
+
+theorem sum_tail [AddCommMonoid α] {d r : Nat} (hr : r ≤ d) (F : Fin d → α) :
+    ∑ i : Fin (d - r), F ⟨r + i.val, by have := i.isLt; omega⟩ =
+      ∑ i, if r ≤ i.val then F i else 0 := by
+  rw [sum_split hr (fun i => if r ≤ i.val then F i else 0)]
+  have h1 : ∑ q : Fin r, (if r ≤ (Fin.castLE hr q).val then F (Fin.castLE hr q) else 0) = 0 := by
+    apply Finset.sum_eq_zero
+    intro q _
+    rw [if_neg (by have := q.isLt; simp only [Fin.val_castLE]; omega)]
+  rw [h1, zero_add]
+  apply Finset.sum_congr rfl
+  intro i _
+  rw [if_pos (by simp only []; omega)]
+
+/-! ### the flip / roll permutation -/
+
+def permInv (d : Nat) (neg : Bool) (k : Nat) (j : Fin d) : Fin d :=
+  if neg then ⟨(j.val + (d - k)) % d, Nat.mod_lt _ (Nat.lt_of_le_of_lt (Nat.zero_le _) j.isLt)⟩
+  else ⟨d - 1 - j.val, by have := j.isLt; omega⟩
+
+theorem roll_roundtrip (d a b i : Nat) (hi : i < d) (hab : a + b = d) :
+    ((i + a) % d + b) % d = i := by
+  rw [Nat.mod_add_mod, Nat.add_assoc, hab, Nat.add_mod_right, Nat.mod_eq_of_lt hi]
+
+/-- `perm` as an equivalence (needs `k ≤ d`) -/
+def permEquiv (d : Nat) (neg : Bool) (k : Nat) (hk : k ≤ d) : Fin d ≃ Fin d where
+  toFun := perm d neg k
+  invFun := permInv d neg k
+  left_inv i := by
+    apply Fin.ext
+    cases neg
+    · simp only [perm, permInv]; have := i.isLt; simp; omega
+    · simp only [perm, permInv, if_true]
+      exact roll_roundtrip d k (d - k) i.val i.isLt (by omega)
+  right_inv j := by
+    apply Fin.ext
+    cases neg
+    · simp only [perm, permInv]; have := j.isLt; simp; omega
+    · simp only [perm, permInv, if_true]
+      exact roll_roundtrip d (d - k) k j.val j.isLt (by omega)
+
+
 end PrecondVerif.LowRank
